@@ -23,6 +23,11 @@ type Case struct {
 	// informational
 	Prog string `json:"prog,omitempty"`
 	Tail string `json:"tail,omitempty"`
+	// Pre / PreFlags: an earlier evaluation on the same VM (also on the reference VM) of text Pre while the seven switches
+	// (bit 0..6: CoC WoD Fate DC DisableStmts DisableNDice DisableBitwiseOp) were PreFlags; afterwards the host sets the
+	// switches of Cfg. Pre is the same program with another tail: nothing of its compilation may survive into the judged one.
+	Pre      string `json:"pre,omitempty"`
+	PreFlags *int   `json:"preFlags,omitempty"`
 }
 
 type stEvent struct {
@@ -45,6 +50,20 @@ func newVM(c Case, log *[]stEvent) *ds.Context {
 			defer func() { _ = recover() }()
 			_ = vm.Run(s)
 		}()
+	}
+	if c.PreFlags != nil {
+		b := *c.PreFlags
+		pre := c.Cfg
+		pre.CoC, pre.WoD, pre.Fate, pre.DC = b&1 != 0, b&2 != 0, b&4 != 0, b&8 != 0
+		pre.NoStmts, pre.NoNDice, pre.NoBitwise = b&16 != 0, b&32 != 0, b&64 != 0
+		pre.Apply(vm)
+		func() {
+			ds.VerifMeterReset(3_000_000)
+			defer ds.VerifMeterReset(0)
+			defer func() { _ = recover() }()
+			_ = vm.Run(c.Pre)
+		}()
+		c.Cfg.Apply(vm)
 	}
 	*log = (*log)[:0]
 	return vm
@@ -265,6 +284,17 @@ func TestProp(t *testing.T) {
 		prog = lead + prog
 		c.Prog, c.Tail = prog, tail
 		c.Src = prog + tail
+		if rapid.IntRange(0, 5).Draw(t, "withPre") == 0 {
+			// the same program was evaluated before with another tail while the host had other switches set
+			b := rapid.IntRange(0, 127).Draw(t, "preFlags")
+			c.PreFlags = &b
+			t2, _ := g.Tail()
+			if rapid.Bool().Draw(t, "preSameTail") {
+				t2 = tail
+			}
+			c.Pre = prog + t2
+			s.Class("with-earlier-evaluation-under-other-switches")
+		}
 		s.Eval()
 		s.Class("tail:" + tclass)
 		s.Crumb(c)
